@@ -870,7 +870,9 @@ pub fn gen_opts(r: &mut Rng, text: &str) -> OptSpec {
 }
 
 fn gen_word(r: &mut Rng) -> String {
-    match r.below(6) {
+    match r.below(8) {
+        6 => r.ps(&["what ?!", "a )", "[ foo ]", "x  y", "foo /", "👩\u{200d}💻👩\u{200d}💻", "ab\u{200d}cde", "👍\u{1f3fd}👍\u{1f3fd}", "a\tb\tc", "\u{644}\u{627}\u{644}\u{627}"]).to_string(),
+        7 => gen::text_over(r, &["a", " ", "Ｈ", "\u{200d}", "\t", "\u{301}", "?", "\x1b[0m", "\u{1f3fd}", "👍"], 7).trim_end_matches(' ').to_string(),
         0 => gen::text_over(r, &["a", "-", "é", "Ｈ", "\u{301}", "\x1b[31m", "b"], 8),
         1 => gen::text_over(r, gen::RAW, 8).replace(' ', "x"),
         2 => format!("{}{}{}", r.pick(gen::SGR), r.pick(gen::VOCAB), r.pick(gen::SGR)),
